@@ -480,4 +480,98 @@ def print : E → List Tok
     (if rootLevel c ≤ 0 then paren (print c) else print c) ++ ['?'] ::
     print t ++ [':'] :: (print f)
 
+/-! ## the agreement class: the hypotheses of `ifeval_eq_spec` (Props/C11.lean), all decidable -/
+
+def isLeaf : E → Bool
+  | .lit _ | .defd _ _ | .ident _ => true
+  | _ => false
+
+def isCompound : E → Bool
+  | .bin _ _ _ | .cond _ _ _ => true
+  | _ => false
+
+/-- H-lits: every literal is decimal, has no suffix and fits intmax_t -/
+def plainLits : E → Bool
+  | .lit l => l.base == 10 && !l.usuf && l.lsuf == 0 && (l.n : Int) < two63
+  | .defd _ _ => true
+  | .ident _ => true
+  | .un _ e => plainLits e
+  | .bin _ a b => plainLits a && plainLits b
+  | .cond c t f => plainLits c && plainLits t && plainLits f
+
+/-- the levels simplecpp folds in one left-to-right pass: `== !=` together with `< <= > >=`, `||` together with `&&` -/
+def slevel : BinOp → Nat
+  | .eq | .ne => 7
+  | .lor => 2
+  | o => clevel o
+
+/-- H-mix: no operator has, as its unparenthesised right operand, an operator that simplecpp folds in the same pass
+(`a || b && c`, `a == b < c`) -/
+def noLevelMix : E → Bool
+  | .lit _ | .defd _ _ | .ident _ => true
+  | .un _ e => noLevelMix e
+  | .bin o a b =>
+    noLevelMix a && noLevelMix b &&
+      !(match b with | .bin o' _ _ => decide (clevel o' > clevel o) && slevel o' == slevel o | _ => false)
+  | .cond c t f => noLevelMix c && noLevelMix t && noLevelMix f
+
+/-- strict evaluation on intmax_t: every subexpression is evaluated (no short circuit, both arms of `?:`) and every
+intermediate result is representable; `none` otherwise -/
+def valueStrict (isDef : Tok → Bool) : E → Option Int
+  | .lit l => if (l.n : Int) < two63 then some l.n else none
+  | .defd x _ => some (b2i (isDef x))
+  | .ident _ => some 0
+  | .un o e =>
+    match valueStrict isDef e with
+    | none => none
+    | some v => (specUn o ⟨v, false⟩).map (·.v)
+  | .bin o a b =>
+    match valueStrict isDef a, valueStrict isDef b with
+    | some x, some y => (specBin o ⟨x, false⟩ ⟨y, false⟩).map (·.v)
+    | _, _ => none
+  | .cond c t f =>
+    match valueStrict isDef c, valueStrict isDef t, valueStrict isDef f with
+    | some x, some y, some z => some (if x ≠ 0 then y else z)
+    | _, _, _ => none
+
+/-- H-unary: a unary operator is applied to a literal / `defined` / identifier or to a parenthesised binary or conditional
+expression — never directly to another unary expression; the operand of unary minus has a positive value (`- 0` is spelled
+`-0`, `- ( -1 )` becomes `--1`) -/
+def unaryOk (isDef : Tok → Bool) : E → Bool
+  | .lit _ | .defd _ _ | .ident _ => true
+  | .un o x =>
+    unaryOk isDef x && (isLeaf x || isCompound x) &&
+      (o != .neg || (match valueStrict isDef x with | some v => decide (v > 0) | none => false))
+  | .bin _ a b => unaryOk isDef a && unaryOk isDef b
+  | .cond c t f => unaryOk isDef c && unaryOk isDef t && unaryOk isDef f
+
+/-- H-chain: the third operand of `?:` is not itself an (unparenthesised) conditional expression -/
+def noCondChain : E → Bool
+  | .lit _ | .defd _ _ | .ident _ => true
+  | .un _ e => noCondChain e
+  | .bin _ a b => noCondChain a && noCondChain b
+  | .cond c t f => noCondChain c && noCondChain t && noCondChain f && !(match f with | .cond _ _ _ => true | _ => false)
+
+def strictOk (isDef : Tok → Bool) (e : E) : Bool := (valueStrict isDef e).isSome
+
+def Agree (isDef : Tok → Bool) (e : E) : Bool :=
+  strictOk isDef e && plainLits e && unaryOk isDef e && noLevelMix e && noCondChain e
+
+/-- the first hypothesis that fails (classifier of the known findings), `none` inside the agreement class -/
+def firstFailing (isDef : Tok → Bool) (e : E) : Option String :=
+  if !hasUnsigned e && !strictOk isDef e then some "unevaluated"
+  else if hasUnsigned e then some "unsigned"
+  else if !plainLits e then some "literal"
+  else if !unaryOk isDef e then some "unary"
+  else if !noLevelMix e then some "mix"
+  else if !noCondChain e then some "chain"
+  else none
+where
+  hasUnsigned : E → Bool
+    | .lit l => l.usuf || (l.n : Int) ≥ two63
+    | .defd _ _ | .ident _ => false
+    | .un _ e => hasUnsigned e
+    | .bin _ a b => hasUnsigned a || hasUnsigned b
+    | .cond c t f => hasUnsigned c || hasUnsigned t || hasUnsigned f
+
 end Cppcheck.PPCond
